@@ -377,6 +377,10 @@ def run(R):
     # ---- totality of the per-line parse
     pin = R.need_fn("sqlgrep::data_model::ParsingInput::new")
     fs = [c for c in pin.calls if short(c.name) == "serde_json::de::from_str"]
+    if not fs:
+        # the parse inside a combinator closure (`any_json.then(|| from_str(line).ok()).flatten()`): closures spliced in
+        pin = PR.desugared(P, pin)
+        fs = [c for c in pin.calls if short(c.name) == "serde_json::de::from_str"]
     if len(fs) != 1:
         R.violation("C02.total", "ParsingInput::new|parse-count", "the line is parsed as JSON %d times (expected once)" % len(fs), [pin.loc()])
     else:
